@@ -1,6 +1,7 @@
 (* domspec: ONE call of a DOM Level 1 mutator on the extracted specification (Spec/DomL1.v).
    Input words:  <op> <dump words of the state before the call> [E<h>=<name>:<0|1>;...]*
-     - op as in harness/src/domains/dom.rs (handles are indices into the dump);
+     - op as in harness/src/domains/dom.rs (handles are indices into the dump); NZ carries the view as a third field
+       (`NZ:<h>:r` / `NZ:<h>:m`, see the NZ arm below);
      - dump words as printed by the harness with the `+x` view suffix: node words
        `h=kind/name/data/p=../c=../...`, `X<h>=<document>/<qualified name>`; S and R words are ignored;
      - E words: entities declared by the document type with handle h (name, usable in attribute values).
@@ -188,8 +189,31 @@ let () = register "domspec" (fun words ->
       | "ST", Some r -> Some (ASplitText (r, num 2))
       | "PD", Some r -> Some (APISetData (r, s 2))
       | _ -> None in
+    (* NZ:<h>:<view>  Element.normalize -- the extracted [dom_normalize] of Spec/DomL1.v (reading R7) applied to the state
+       rebuilt from the dump, like every other call.  The third field is the view in which the implementation made the
+       call (`r` raw, `m` merged text; checks/dom13.py spec_op adds it).
+       - raw view: result class and state are those of [dom_normalize] (the rung proved for the model is
+         Properties/C13.v C13_normalize_refines).
+       - merged-text view: the child lists the API shows hold no Text nodes (every maximal run of character data is one
+         ExpandedText), so "no adjacent Text nodes" already holds of what the caller sees and the call has nothing to do:
+         the RESULT CLASS is still the one of [dom_normalize] (ok on an Element, not offered elsewhere), the expected
+         STATE is the unchanged raw tree of the dump.  This reading is explicit here and nowhere hidden in the
+         specification: Properties/C13.v C13_normalize_merged_view (the model leaves the world as it is in that view)
+         and C13_normalize_merged_view_not_raw (seen through the raw abstraction that call does NOT refine
+         [dom_normalize]: the raw tree may keep adjacent Text nodes).
+       A missing or unknown view field is answered `crash` (a deviation of clause spec-crash), never guessed. *)
+    let nz_bad_view = ref false in
     let (a1, oc) = match op with
       | Some o -> dom_step docs o
+      | None when f.(0) = "NZ" ->
+        (match h 1 with
+         | None -> (docs, ANotOffered)
+         | Some r ->
+           let (a2, oc2) = dom_normalize docs r in
+           (match (if Array.length f > 2 then f.(2) else "") with
+            | "r" -> (a2, oc2)
+            | "m" -> (docs, oc2)
+            | _ -> nz_bad_view := true; (docs, oc2)))
       | None when List.mem f.(0) ["ES"; "ESI"; "ER"; "TS"; "TSI"; "TR"] ->
         (match ds_ro_op nodes rest f h with Some o -> dom_step_ro docs o | None -> (docs, ANotOffered))
       | None -> (docs, ANotOffered) in
@@ -203,6 +227,7 @@ let () = register "domspec" (fun words ->
     for x = 0 to nh - 1 do ignore (intern (doc_of_h x) x) done;
     let getn d i = aget a1 (n_of_int d, n_of_int i) in
     let res = match oc with
+      | _ when !nz_bad_view -> "crash"
       | ADone AUnit -> "ok"
       | ADone ANull -> "ok:~"
       | ADone (ANode (d, i)) -> "ok:" ^ string_of_int (intern (int_of_n d) (int_of_n i))
